@@ -1,1 +1,203 @@
-(* placeholder *)
+(* Proofs about the event-level value replication model (Values.v): C10, C02, joins, traffic. *)
+From Coq Require Import NArith List Lia.
+From stdpp Require Import gmap list.
+From BS Require Import Abs.Values.
+
+Local Open Scope N_scope.
+
+(* ================================================================================================
+   Part 0: channel operations
+   ================================================================================================ *)
+
+Lemma lget_insert L a b l a' b' :
+  lget (<[(a, b) := l]> L) a' b' = if decide ((a', b') = (a, b)) then l else lget L a' b'.
+Proof.
+  unfold lget. destruct (decide ((a', b') = (a, b))) as [Heq|Hne].
+  - rewrite Heq, lookup_insert. reflexivity.
+  - rewrite lookup_insert_ne by congruence. reflexivity.
+Qed.
+
+Lemma lget_push_link L a b vs a' b' :
+  lget (push_link L a b vs) a' b' = if decide ((a', b') = (a, b)) then lget L a b ++ vs else lget L a' b'.
+Proof. unfold push_link. apply lget_insert. Qed.
+
+Lemma lget_send_to L src dsts vs a b :
+  NoDup dsts ->
+  lget (send_to L src dsts vs) a b = if decide (a = src /\ b ∈ dsts) then lget L a b ++ vs else lget L a b.
+Proof.
+  intros Hnd. induction Hnd as [|d dsts Hnotin Hnd IH]; simpl.
+  - destruct (decide (a = src /\ b ∈ [])) as [[_ Hin]|_]; [inversion Hin|reflexivity].
+  - rewrite lget_push_link. destruct (decide ((a, b) = (src, d))) as [Heq|Hne].
+    + inversion Heq; subst. rewrite IH.
+      destruct (decide (src = src /\ d ∈ dsts)) as [[_ Hin]|_]; [contradiction|].
+      destruct (decide (src = src /\ d ∈ d :: dsts)) as [_|Hn]; [reflexivity|].
+      exfalso. apply Hn. split; [reflexivity|left].
+    + rewrite IH. destruct (decide (a = src /\ b ∈ dsts)) as [[-> Hin]|Hn].
+      * destruct (decide (src = src /\ b ∈ d :: dsts)) as [_|Hn2]; [reflexivity|].
+        exfalso. apply Hn2. split; [reflexivity|right; exact Hin].
+      * destruct (decide (a = src /\ b ∈ d :: dsts)) as [[-> Hin]|_]; [|reflexivity].
+        exfalso. apply elem_of_cons in Hin as [->|Hin]; [apply Hne; reflexivity|apply Hn; auto].
+Qed.
+
+Lemma NoDup_others src l : NoDup l -> NoDup (others src l).
+Proof. intros H. unfold others. apply NoDup_filter. exact H. Qed.
+
+Lemma elem_of_others src l c : c ∈ others src l <-> c <> src /\ c ∈ l.
+Proof. unfold others. rewrite elem_of_list_filter. reflexivity. Qed.
+
+(* ================================================================================================
+   Part 1: getters after one step
+   ================================================================================================ *)
+
+Definition peers (s : vstate) (p : peer) : Prop := p = host \/ p ∈ vconn s.
+
+Lemma getp_insert m c l p x :
+  getp (VState (<[p := x]> m) c l) p = x.
+Proof. unfold getp. simpl. rewrite lookup_insert. reflexivity. Qed.
+Lemma getp_insert_ne m c l p q x :
+  q <> p -> getp (VState (<[p := x]> m) c l) q = getp (VState m c l) q.
+Proof. intros H. unfold getp. simpl. rewrite lookup_insert_ne by congruence. reflexivity. Qed.
+Lemma getp_links m c l l' q : getp (VState m c l) q = getp (VState m c l') q.
+Proof. reflexivity. Qed.
+
+Lemma getp_exists s p x : vp s !! p = Some x -> getp s p = x.
+Proof. intros H. unfold getp. rewrite H. reflexivity. Qed.
+
+Lemma wf_exists s p : vwf s -> is_Some (vp s !! p) <-> peers s p.
+Proof. intros (_ & _ & H & _). apply H. Qed.
+
+Definition detect' (x : vpeer) : vpeer := if dirty x || token x then vdetect x else x.
+
+(* VWrite *)
+Lemma step_write s p v s' :
+  vstep s (VWrite p v) = Some s' ->
+  is_Some (vp s !! p) /\ vconn s' = vconn s /\ vlinks s' = vlinks s /\
+  (forall q, is_Some (vp s' !! q) <-> is_Some (vp s !! q)) /\
+  getp s' p = VPeer (Some v) true (ptoken s p) (poutq s p) /\
+  (forall q, q <> p -> getp s' q = getp s q).
+Proof.
+  simpl. destruct (vp s !! p) as [x|] eqn:Hx; [|discriminate]. intros [= <-].
+  split; [eauto|]. split; [reflexivity|]. split; [reflexivity|]. split; [|split].
+  - intros q. simpl. destruct (decide (q = p)) as [->|Hne].
+    + rewrite lookup_insert, Hx. split; eauto.
+    + rewrite lookup_insert_ne by congruence. reflexivity.
+  - unfold set_peer. rewrite getp_insert. unfold ptoken, poutq. rewrite (getp_exists _ _ _ Hx). reflexivity.
+  - intros q Hne. unfold set_peer. destruct s; simpl. apply getp_insert_ne. exact Hne.
+Qed.
+
+(* VDetect *)
+Lemma step_detect s p s' :
+  vstep s (VDetect p) = Some s' ->
+  is_Some (vp s !! p) /\ vconn s' = vconn s /\ vlinks s' = vlinks s /\
+  (forall q, is_Some (vp s' !! q) <-> is_Some (vp s !! q)) /\
+  getp s' p = detect' (getp s p) /\
+  (forall q, q <> p -> getp s' q = getp s q).
+Proof.
+  simpl. destruct (vp s !! p) as [x|] eqn:Hx; [|discriminate].
+  unfold detect'. rewrite (getp_exists _ _ _ Hx).
+  destruct (dirty x || token x) eqn:Hd; intros [= <-].
+  - split; [eauto|]. split; [reflexivity|]. split; [reflexivity|]. split; [|split].
+    + intros q. simpl. destruct (decide (q = p)) as [->|Hne].
+      * rewrite lookup_insert, Hx. split; eauto.
+      * rewrite lookup_insert_ne by congruence. reflexivity.
+    + unfold set_peer. apply getp_insert.
+    + intros q Hne. unfold set_peer. destruct s; simpl. apply getp_insert_ne. exact Hne.
+  - split; [eauto|]. repeat split; try tauto. apply getp_exists. exact Hx.
+Qed.
+
+(* VSend *)
+Definition dsts_of (s : vstate) (p : peer) : list peer := if (p =? host)%N then vconn s else [host].
+
+Lemma step_send s p s' :
+  NoDup (vconn s) ->
+  vstep s (VSend p) = Some s' ->
+  is_Some (vp s !! p) /\ vconn s' = vconn s /\
+  (forall q, is_Some (vp s' !! q) <-> is_Some (vp s !! q)) /\
+  getp s' p = VPeer (pcur s p) (pdirty s p) (ptoken s p) [] /\
+  (forall q, q <> p -> getp s' q = getp s q) /\
+  (forall a b, link s' a b = if decide (a = p /\ b ∈ dsts_of s p) then link s a b ++ poutq s p else link s a b).
+Proof.
+  intros Hnd. simpl. destruct (vp s !! p) as [x|] eqn:Hx; [|discriminate].
+  unfold pcur, pdirty, ptoken, poutq. rewrite (getp_exists _ _ _ Hx).
+  destruct (outq x) as [|v0 q0] eqn:Hq; intros [= <-].
+  - split; [eauto|]. split; [reflexivity|]. split; [tauto|]. split; [|split].
+    + rewrite (getp_exists _ _ _ Hx). destruct x; simpl in *. subst. reflexivity.
+    + reflexivity.
+    + intros a b. destruct (decide _); [rewrite app_nil_r|]; reflexivity.
+  - split; [eauto|]. split; [reflexivity|]. split; [|split; [|split]].
+    + intros q. simpl. destruct (decide (q = p)) as [->|Hne].
+      * rewrite lookup_insert, Hx. split; eauto.
+      * rewrite lookup_insert_ne by congruence. reflexivity.
+    + apply getp_insert.
+    + intros q Hne. destruct s; simpl. rewrite getp_insert_ne by exact Hne. reflexivity.
+    + intros a b. unfold link. simpl. apply lget_send_to.
+      unfold dsts_of. destruct (p =? host)%N; [exact Hnd|]. apply NoDup_singleton.
+Qed.
+
+(* VDeliver *)
+Lemma step_deliver s src dst s' :
+  NoDup (vconn s) ->
+  vstep s (VDeliver src dst) = Some s' ->
+  exists v rest, link s src dst = v :: rest /\ is_Some (vp s !! dst) /\ vconn s' = vconn s /\
+  (forall q, is_Some (vp s' !! q) <-> is_Some (vp s !! q)) /\
+  (forall q, q <> dst -> getp s' q = getp s q) /\
+  ((pcur s dst = Some v /\ getp s' dst = getp s dst /\
+    forall a b, link s' a b = if decide ((a, b) = (src, dst)) then rest else link s a b)
+   \/
+   (pcur s dst <> Some v /\ getp s' dst = VPeer (Some v) (pdirty s dst) true (poutq s dst) /\
+    forall a b, link s' a b =
+      (if decide ((a, b) = (src, dst)) then rest else link s a b) ++
+      (if decide (dst = host /\ a = host /\ b ∈ others src (vconn s)) then [v] else []))).
+Proof.
+  intros Hnd. simpl. destruct (link s src dst) as [|v rest] eqn:Hl; [discriminate|].
+  destruct (vp s !! dst) as [x|] eqn:Hx; [|discriminate].
+  unfold pcur, pdirty, poutq. rewrite (getp_exists _ _ _ Hx).
+  destruct (bool_decide (cur x = Some v)) eqn:Hc; intros [= <-]; exists v, rest.
+  - apply bool_decide_eq_true in Hc.
+    split; [reflexivity|]. split; [eauto|]. split; [reflexivity|]. split; [tauto|]. split; [reflexivity|].
+    left. split; [exact Hc|]. split; [unfold getp; simpl; rewrite Hx; reflexivity|].
+    intros a b. unfold link. simpl. apply lget_insert.
+  - apply bool_decide_eq_false in Hc.
+    split; [reflexivity|]. split; [eauto|]. split; [reflexivity|]. split; [|split].
+    + intros q. simpl. destruct (decide (q = dst)) as [->|Hne].
+      * rewrite lookup_insert, Hx. split; eauto.
+      * rewrite lookup_insert_ne by congruence. reflexivity.
+    + intros q Hne. destruct s; simpl. rewrite getp_insert_ne by exact Hne. reflexivity.
+    + right. split; [exact Hc|]. split; [apply getp_insert|].
+      intros a b. unfold link. simpl. destruct (dst =? host)%N eqn:Hd.
+      * apply N.eqb_eq in Hd. subst dst. rewrite lget_send_to by (apply NoDup_others; exact Hnd).
+        rewrite lget_insert.
+        destruct (decide (a = host /\ b ∈ others src (vconn s))) as [[-> Hin]|Hn].
+        -- destruct (decide (host = host /\ host = host /\ b ∈ others src (vconn s))) as [_|Hn]; [reflexivity|tauto].
+        -- destruct (decide (host = host /\ a = host /\ b ∈ others src (vconn s))) as [[_ Hy]|_]; [tauto|].
+           rewrite app_nil_r. reflexivity.
+      * apply N.eqb_neq in Hd. rewrite lget_insert.
+        destruct (decide (dst = host /\ _)) as [[Hy _]|_]; [contradiction|]. rewrite app_nil_r. reflexivity.
+Qed.
+
+(* VJoin *)
+Definition snapshot (s : vstate) : list value := match pcur s host with Some v => [v] | None => [] end.
+
+Lemma step_join s c s' :
+  vstep s (VJoin c) = Some s' ->
+  c <> host /\ c ∉ vconn s /\ vp s !! c = None /\ vconn s' = vconn s ++ [c] /\
+  (forall q, is_Some (vp s' !! q) <-> is_Some (vp s !! q) \/ q = c) /\
+  (forall q, getp s' q = getp s q) /\
+  (forall a b, link s' a b = if decide ((a, b) = (host, c)) then link s host c ++ snapshot s else link s a b).
+Proof.
+  simpl. destruct (c =? host)%N eqn:Hc; [discriminate|]. apply N.eqb_neq in Hc.
+  destruct (bool_decide (c ∈ vconn s)) eqn:Hin; [discriminate|]. apply bool_decide_eq_false in Hin.
+  unfold pexists. destruct (bool_decide (is_Some (vp s !! c))) eqn:Hex; [discriminate|].
+  apply bool_decide_eq_false in Hex. simpl. intros [= <-].
+  assert (Hnone : vp s !! c = None) by (destruct (vp s !! c); [exfalso; eauto|reflexivity]).
+  split; [exact Hc|]. split; [exact Hin|]. split; [exact Hnone|]. split; [reflexivity|]. split; [|split].
+  - intros q. simpl. destruct (decide (q = c)) as [->|Hne].
+    + rewrite lookup_insert. split; eauto.
+    + rewrite lookup_insert_ne by congruence. split; [auto|]. intros [H|H]; [exact H|contradiction].
+  - intros q. unfold getp. simpl. destruct (decide (q = c)) as [->|Hne].
+    + rewrite lookup_insert, Hnone. reflexivity.
+    + rewrite lookup_insert_ne by congruence. reflexivity.
+  - intros a b. unfold link, snapshot. simpl. destruct (pcur s host) as [v|].
+    + apply lget_push_link.
+    + destruct (decide _) as [Heq|_]; [|reflexivity]. inversion Heq; subst. rewrite app_nil_r. reflexivity.
+Qed.
